@@ -47,10 +47,11 @@ _WORLDS = {}
 class World:
     """one mapping set: classes P and C, metadata, relationship kind"""
 
-    def __init__(self, kind, coll, style, m2o_active_history=False, cascade=None):
+    def __init__(self, kind, coll, style, m2o_active_history=False, cascade=None, value_eq=False):
         self.kind, self.coll, self.style = kind, coll, style
         self.m2o_active_history = m2o_active_history
-        self.key = (kind, coll, style, m2o_active_history, cascade)
+        self.value_eq = value_eq
+        self.key = (kind, coll, style, m2o_active_history, cascade, value_eq)
         self._engine = None
         reg = registry()
         md = reg.metadata
@@ -99,6 +100,14 @@ class World:
             def __repr__(self):
                 return "<C %s>" % self.__dict__.get("name", "?")
 
+        if value_eq:
+            # value-based equality on the mapped classes: *distinct* rows
+            # compare equal (and hash alike).  Everything the ORM decides about
+            # object references has to go by identity, never by ==.
+            for cls in (P, C):
+                cls.__eq__ = lambda self, other: type(other) is type(self)
+                cls.__ne__ = lambda self, other: type(other) is not type(self)
+                cls.__hash__ = lambda self: 7
         self.P, self.C = P, C
         cc = {"list": list, "set": set, "dict": attribute_keyed_dict("name")}.get(coll)
         pprops = {"y": column_property(pt.c.y, active_history=True)}
@@ -107,7 +116,9 @@ class World:
         if cascade is not None:
             rk["cascade"] = cascade
         if kind == "o2m":
-            if style == "bp":
+            if style == "uni":  # one-to-many without a many-to-one side
+                pprops["cs"] = relationship(C, collection_class=cc, **rk)
+            elif style == "bp":
                 pprops["cs"] = relationship(C, back_populates="p", collection_class=cc, **rk)
                 cprops["p"] = relationship(P, back_populates="cs", active_history=m2o_active_history)
             else:
@@ -145,6 +156,7 @@ class World:
         # name of the relationship attribute on each side
         self.p_attr = "c" if kind == "o2o" else "cs"
         self.c_attr = "ps" if kind == "m2m" else "p"
+        self.bidirectional = style != "uni" and kind != "m2o"
 
     # ------------------------------------------------------------ database
     def memory_engine(self, init_sql=""):
@@ -225,7 +237,8 @@ class World:
                     set_committed_value(objs[c], "ps", self._mk([objs[p] for p in par]))
                 else:
                     objs[c].p_id = self.pk(par[0]) if par else None
-                    set_committed_value(objs[c], "p", objs[par[0]] if par else None)
+                    if self.bidirectional:
+                        set_committed_value(objs[c], "p", objs[par[0]] if par else None)
             for p in pnames:
                 ch = [objs[c] for pp, c in pairs if pp == p]
                 if self.kind == "o2o":
@@ -251,11 +264,11 @@ class World:
         return cls(id=self.pk(name), name=name, **kw)
 
 
-def world(kind, coll=None, style="bp", m2o_active_history=False, cascade=None):
-    key = (kind, coll, style, m2o_active_history, cascade)
+def world(kind, coll=None, style="bp", m2o_active_history=False, cascade=None, value_eq=False):
+    key = (kind, coll, style, m2o_active_history, cascade, value_eq)
     w = _WORLDS.get(key)
     if w is None:
-        w = _WORLDS[key] = World(kind, coll, style, m2o_active_history, cascade)
+        w = _WORLDS[key] = World(kind, coll, style, m2o_active_history, cascade, value_eq)
     return w
 
 
